@@ -37,6 +37,29 @@ reg('C18', True,
     'threshold tests with thresholds from the previous average. Not decided: moving-average arithmetic, real-time lag.',
     'clang 14 AST/CFG of four units; std::function/std::thread/std::atomic semantics are trusted',
     'finite-domain abstract evaluation of decision trees + who-may-write + type-level witness (-fsyntax-only)')
-for _p in ['C01', 'C02', 'C03', 'C04', 'C06', 'C07', 'C08', 'C09', 'C10', 'C12', 'C13', 'C14', 'C15', 'C16',
-           'C17', 'C19', 'C20']:
+reg('C12', True,
+    'Narrow claim. Decides the structural necessary conditions of the weighted-sampling structure on its instantiation: '
+    'element handle (index_) and data_ slot stay paired on add and on remove\'s swap, the leaf-row swap exchanges the same '
+    'two slots, the empty-structure rejection dominates every tree access in sample(), the compared cell is the '
+    'subtracted cell, one row step and one index doubling per iteration, the right-child step is guarded by the '
+    'existence of a right child, update() walks one cell per row with the same delta, remove() shrinks data_ and the leaf '
+    'row together with the sibling short-cut exactly for (index+2==size, index even), and every leaf-row edit is followed '
+    'on all paths by the upper-row maintenance loop. Not decided: the selection rule as arithmetic, proportional '
+    'frequencies, magnitude of rounding drift.',
+    'clang 14 AST/CFG of the explicit instantiation PDF<int>; std::vector semantics trusted',
+    'paired-update typestate, guard dominance and must-pass-through over clang CFG; linear normal form')
+reg('C19', True,
+    'Decides the structural clauses of race freedom: (a) over the resolved call graph (CHA refined by receiver class, '
+    'lambdas followed) no documented thread-safe entry point reaches an unsynchronised store to a non-atomic mutable '
+    'field, a static-storage object or through const_cast; (b) every access to the data of the four mutex-protected '
+    'singletons happens with their own mutex held (lock-set analysis over the CFG); (c) manual lock()/unlock() are paired '
+    'on all paths and created threads are joined; (d) a frozen, read-confirmed table of 36 (worker function, shared '
+    'member, mutex) triples and 8 locked base-class calls of the multi-threaded planners holds. Not decided: '
+    'linearizability, solution quality under interleavings. Known finding: AtlasStateSpace mutates its atlas in const '
+    'geodesic traversal (TSan-confirmed).',
+    'clang 14 AST/CFG of 44 units; user callbacks (validity checker, constraint function) end the traversal; std '
+    'library synchronisation primitives trusted',
+    'effect analysis over the resolved call graph + lock-set dataflow over clang CFG + frozen who-holds-what table')
+for _p in ['C01', 'C02', 'C03', 'C04', 'C06', 'C07', 'C08', 'C09', 'C10', 'C13', 'C14', 'C15', 'C16',
+           'C17', 'C20']:
     reg(_p, False, '', '', '', PENDING)
